@@ -139,7 +139,8 @@ def run_expr(c):
     if c.get('causal'):
         kw['causal'] = True
     x = lcapy.expr(e, **kw)
-    out = {'cls': type(x).__name__, 'str': str(x.sympy)[:120]}
+    out = {'cls': type(x).__name__, 'str': str(x.sympy)[:400],
+           'funcs': sorted(set(type(a).__name__ for a in x.sympy.atoms(sp.Function)))}
     try:
         out['is_causal'] = bool((x.is_time_domain or x.is_discrete_time_domain) and x.is_causal)
     except Exception as ex:
@@ -340,12 +341,25 @@ def main():
            'rmodel': run_rmodel, 'sim': run_sim, 'response': run_response}
     import io
     import contextlib
+    import signal
+
+    class CaseTimeout(Exception):
+        pass
+
+    def on_alarm(signum, frame):
+        raise CaseTimeout()
+    signal.signal(signal.SIGALRM, on_alarm)
     for c in cases:
         try:
+            signal.alarm(int(c.get('timeout', 60)))
             with contextlib.redirect_stdout(io.StringIO()):
                 r = tab[c['kind']](c)
+            signal.alarm(0)
             res.append(r)
+        except CaseTimeout:
+            res.append({'timeout': True})
         except Exception as e:
+            signal.alarm(0)
             res.append({'error': type(e).__name__ + ': ' + str(e)[:200]})
     json.dump(res, sys.stdout)
 
